@@ -150,7 +150,8 @@ def ensure_mir_facts(features, slot=None, want_derive=False):
     derive = os.path.join(out, "scale_info_derive.json")
     if os.path.exists(main) and (not need_derive or os.path.exists(derive)):
         return out
-    slot = slot or ("s-" + config if config in ("std", cfg_name(ALL_FEATURES), "none") else "matrix")
+    # a stable slot per configuration (4 target directories): dependencies stay warm across tree changes
+    slot = slot or ("slot%d" % (int(hashlib.sha256(config.encode()).hexdigest(), 16) % 4))
     lk = _lock("target-" + slot)
     try:
         if os.path.exists(main) and (not need_derive or os.path.exists(derive)):
@@ -277,3 +278,67 @@ def load_src():
         with open(ensure_src_facts()) as f:
             _src = json.load(f)
     return _src
+
+
+# ------------------------------------------------------------------------------ derive fixture corpus
+FIXTURES_SRC = os.path.join(VERIF, "engines", "fixtures", "src", "lib.rs")
+
+
+def ensure_fixture_facts(scale_info_features=("derive",)):
+    """Type-check the derive corpus (engines/fixtures) against REPO through the driver and parse it with
+    srcfacts.  Returns (mir json path, src json path)."""
+    tag = cfg_name(scale_info_features)
+    out = os.path.join(WORK, "facts", tree_hash(), "fixtures-" + tag)
+    mirp = os.path.join(out, "verif_fixtures.json")
+    srcp = os.path.join(out, "src.json")
+    if os.path.exists(mirp) and os.path.exists(srcp):
+        return mirp, srcp
+    lk = _lock("fixtures")
+    try:
+        if os.path.exists(mirp) and os.path.exists(srcp):
+            return mirp, srcp
+        os.makedirs(out, exist_ok=True)
+        d = os.path.join(WORK, "fixtures", tree_hash()[:12] + "-" + tag)
+        os.makedirs(os.path.join(d, "src"), exist_ok=True)
+        shutil.copy(FIXTURES_SRC, os.path.join(d, "src", "lib.rs"))
+        shutil.copy(os.path.join(REPO, "Cargo.lock"), os.path.join(d, "Cargo.lock"))
+        with open(os.path.join(d, "Cargo.toml"), "w") as f:
+            f.write("""[package]
+name = "verif-fixtures"
+version = "0.0.0"
+edition = "2021"
+publish = false
+
+[workspace]
+
+[dependencies]
+info = { package = "scale-info", path = "%s", default-features = false, features = [%s] }
+scale = { package = "parity-scale-codec", version = "3", default-features = false, features = ["derive"] }
+""" % (REPO, ", ".join('"%s"' % x for x in sorted(scale_info_features))))
+        tdir = os.path.join(WORK, "target", "fixtures")
+        for fp in glob.glob(os.path.join(tdir, "debug", ".fingerprint", "verif-fixtures-*")):
+            shutil.rmtree(fp, ignore_errors=True)
+        env = dict(os.environ)
+        env.update({
+            "LD_LIBRARY_PATH": os.path.join(nightly_sysroot(), "lib"),
+            "RUSTFLAGS": RUSTFLAGS,
+            "RUSTC_WORKSPACE_WRAPPER": MIRFACTS_BIN,
+            "MIRFACTS_OUT": out,
+            "MIRFACTS_TAG": tree_hash(),
+            "MIRFACTS_CRATES": "verif_fixtures",
+            "CARGO_TARGET_DIR": tdir,
+            "CARGO_NET_OFFLINE": "true",
+        })
+        env.pop("RUSTC_WRAPPER", None)
+        r = subprocess.run(["cargo", "+nightly", "check", "--offline", "--lib"], cwd=d, env=env, capture_output=True, text=True)
+        if r.returncode != 0 or not os.path.exists(mirp):
+            shutil.rmtree(out, ignore_errors=True)
+            raise EngineError("the derive corpus does not type-check against this tree:\n%s" % r.stderr[-4000:])
+        r = subprocess.run([SRCFACTS_BIN, "--out", srcp + ".tmp", "--root", "fixtures=" + os.path.join(d, "src")], capture_output=True, text=True)
+        if r.returncode != 0:
+            raise EngineError("srcfacts on the corpus failed:\n" + r.stderr[-2000:])
+        os.replace(srcp + ".tmp", srcp)
+        shutil.rmtree(d, ignore_errors=True)
+        return mirp, srcp
+    finally:
+        lk.close()
